@@ -4,14 +4,27 @@ Model: RpylibModel/Model/Pricers.lean (composition logic of COS / FFT / Black–
 abstract).  Spec-level shape theorems (finitely supported terminal laws, ℝ) and the COS coefficient integrals live in
 Proofs/Lemmas/C18Shape.lean and Proofs/Lemmas/C18Integrals.lean and are re-exported here under their property names.
 
-NOT proved (compared numerically by harness/props/c18.py only): the truncation error of the COS interval [a,b], the
-series truncation error of COS, the discretisation / damping / interpolation error of the FFT pricer, the
-characteristic functions themselves, `norm.cdf`.
+Proved in addition (sections d–f): the COS formula is EXACT — `cosPut`/`cosCall`/`cosDigital` fed with the series the code
+evaluates equal the discounted expectations — for a log-moneyness density that (T) vanishes outside [a,b] and (S) equals
+an N-term cosine expansion there; for any density the series equals the integral against the N-term partial sum
+(`cos_series_is_partial_sum`), so (T) and (S) are the ONLY two error terms; the no-arbitrage shape for a general terminal
+law and its transfer to any price function within ε of it; the Black–Scholes closed form as a function of the strike.
+
+NOT proved (compared numerically by harness/props/c18.py only): a BOUND on the truncation error (T) of the cumulant
+interval [a,b] and on the series error (S) of N terms for the five families, the discretisation / damping /
+interpolation error of the FFT pricer, the characteristic functions themselves, `norm.cdf` (hypotheses `NormalLike`).
 -/
 import RpylibModel.Model.Pricers
 import RpylibModel.Proofs.Lemmas.C18Basic
 import RpylibModel.Proofs.Lemmas.C18Shape
 import RpylibModel.Proofs.Lemmas.C18Integrals
+import RpylibModel.Proofs.Lemmas.C18Ortho
+import RpylibModel.Proofs.Lemmas.C18Exact
+import RpylibModel.Proofs.Lemmas.C18Law
+import RpylibModel.Proofs.Lemmas.C18CosLaw
+import RpylibModel.Proofs.Lemmas.C18BS
+import RpylibModel.Proofs.Lemmas.C18Cf
+import Mathlib.MeasureTheory.Integral.IntervalIntegral.FundThmCalculus
 import Mathlib.Tactic.Linarith
 import Mathlib.Tactic.Ring
 import Mathlib.Tactic.FieldSimp
@@ -98,7 +111,7 @@ theorem bs_degenerate_parity (Φ : Rat → Rat) (df fwd K lg sd : Rat) :
 /-- regular branch: parity from `Φ(x) + Φ(-x) = 1` -/
 theorem bs_parity (Φ : Rat → Rat) (hΦ : ∀ x, Φ x + Φ (-x) = 1) (df fwd K lg sd : Rat) :
     bsCall Φ false df fwd K lg sd - bsPut Φ false df fwd K lg sd = df * (fwd - K) := by
-  unfold bsCall bsPut bsCallPut
+  unfold bsCall bsPut bsCallPut bsRegular
   have h1 := hΦ (bsD1 lg sd)
   have h2 := hΦ (bsD2 lg sd)
   simp only [Bool.false_eq_true, if_false, mul_one, mul_neg, mul_one]
@@ -130,7 +143,7 @@ theorem bs_d1_d2 (lg sd : Rat) : bsD1 lg sd - bsD2 lg sd = sd ∧ bsD1 lg sd + b
 theorem bs_upper_bounds (Φ : Rat → Rat) (h0 : ∀ x, 0 ≤ Φ x) (h1 : ∀ x, Φ x ≤ 1)
     (df fwd K lg sd : Rat) (hdf : 0 ≤ df) (hK : 0 ≤ K) (hF : 0 ≤ fwd) :
     bsCall Φ false df fwd K lg sd ≤ df * fwd ∧ bsPut Φ false df fwd K lg sd ≤ df * K := by
-  unfold bsCall bsPut bsCallPut
+  unfold bsCall bsPut bsCallPut bsRegular
   simp only [Bool.false_eq_true, if_false, mul_one, mul_neg]
   have a1 := h0 (bsD1 lg sd); have a2 := h0 (bsD2 lg sd)
   have b1 := h1 (bsD1 lg sd); have b2 := h1 (bsD2 lg sd)
@@ -146,7 +159,7 @@ theorem bs_upper_bounds (Φ : Rat → Rat) (h0 : ∀ x, 0 ≤ Φ x) (h1 : ∀ x,
 theorem bs_digital_range (Φ : Rat → Rat) (h0 : ∀ x, 0 ≤ Φ x) (h1 : ∀ x, Φ x ≤ 1) (deg : Bool)
     (df fwd K lg sd : Rat) (hdf : 0 ≤ df) :
     0 ≤ bsDigital Φ deg df fwd K lg sd ∧ bsDigital Φ deg df fwd K lg sd ≤ df := by
-  unfold bsDigital
+  unfold bsDigital bsDigitalRegular bsDigitalArg
   cases deg
   · simp only [Bool.false_eq_true, if_false]
     have a := h0 (lg / sd - 1 / 2 * sd); have b := h1 (lg / sd - 1 / 2 * sd)
@@ -297,7 +310,8 @@ example : ∃ L : FinLaw Bool, fwd L = 100 ∧ call L 1 100 = 10 := by
 
 end spec
 
-/-! ## (c) COS coefficients are their defining integrals (ℝ instance of the model's own `chiOf`, `psiOf`, `uPut`) -/
+/-! ## (c) COS coefficients are their defining integrals (ℝ instance of the model's own `chiOf`, `psiOf`, `uPut`)
+(proofs in Lemmas/C18Integrals.lean) -/
 
 section integrals
 open Real Integrals intervalIntegral
@@ -305,27 +319,18 @@ open Real Integrals intervalIntegral
 /-- χ_k(c,d) = ∫_c^d e^y cos(u (y-a)) dy  with u = kπ/(b-a): the closed form coded in `COSPricer.xi` -/
 theorem cos_chi_integral (u a c d : ℝ) :
     ∫ y in c..d, exp y * cos (u * (y - a))
-      = chiOf u (cos (u * (d - a))) (sin (u * (d - a))) (exp d) (cos (u * (c - a))) (sin (u * (c - a))) (exp c) := by
-  have hint : IntervalIntegrable (fun y => exp y * cos (u * (y - a))) MeasureTheory.volume c d :=
-    (by fun_prop : Continuous fun y => exp y * cos (u * (y - a))).intervalIntegrable c d
-  rw [integral_eq_sub_of_hasDerivAt (fun y _ => hasDerivAt_chiPrim u a y) hint]
-  unfold chiPrim chiOf
-  ring
+      = chiOf u (cos (u * (d - a))) (sin (u * (d - a))) (exp d) (cos (u * (c - a))) (sin (u * (c - a))) (exp c) :=
+  chi_integral u a c d
 
 /-- ψ_k(c,d) = ∫_c^d cos(u (y-a)) dy for k ≠ 0 -/
 theorem cos_psi_integral (u a c d : ℝ) (hu : u ≠ 0) :
-    ∫ y in c..d, cos (u * (y - a)) = psiOf false u (sin (u * (d - a))) (sin (u * (c - a))) c d := by
-  have hint : IntervalIntegrable (fun y => cos (u * (y - a))) MeasureTheory.volume c d :=
-    (by fun_prop : Continuous fun y => cos (u * (y - a))).intervalIntegrable c d
-  rw [integral_eq_sub_of_hasDerivAt (fun y _ => hasDerivAt_psiPrim u a y hu) hint]
-  unfold psiOf
-  simp only [Bool.false_eq_true, if_false]
-  ring
+    ∫ y in c..d, cos (u * (y - a)) = psiOf false u (sin (u * (d - a))) (sin (u * (c - a))) c d :=
+  psi_integral u a c d hu
 
 /-- ψ_0(c,d) = ∫_c^d 1 dy = d - c (the `k = 0` branch) -/
 theorem cos_psi_integral_zero (a c d sd sc : ℝ) :
-    ∫ y in c..d, cos (0 * (y - a)) = psiOf true 0 sd sc c d := by
-  simp [psiOf]
+    ∫ y in c..d, cos (0 * (y - a)) = psiOf true 0 sd sc c d :=
+  psi_integral_zero a c d sd sc
 
 /-- the put coefficient `u_put(k,a,b)` is `2/(b-a) ∫_a^0 (1 - e^y) cos(u (y-a)) dy` — the cosine coefficient of the
 strike-normalised put payoff `(1 - e^y)^+` on `[a, b]` (a ≤ 0 ≤ b) — for k ≠ 0 -/
@@ -333,23 +338,276 @@ theorem cos_uput_integral (u a b : ℝ) (hu : u ≠ 0) :
     2 / (b - a) * ∫ y in a..(0:ℝ), (1 - exp y) * cos (u * (y - a))
       = uPut a b
           (chiOf u (cos (u * (0 - a))) (sin (u * (0 - a))) (exp 0) (cos (u * (a - a))) (sin (u * (a - a))) (exp a))
-          (psiOf false u (sin (u * (0 - a))) (sin (u * (a - a))) a 0) := by
-  have h1 : IntervalIntegrable (fun y => cos (u * (y - a))) MeasureTheory.volume a 0 :=
-    (by fun_prop : Continuous fun y => cos (u * (y - a))).intervalIntegrable a 0
-  have h2 : IntervalIntegrable (fun y => exp y * cos (u * (y - a))) MeasureTheory.volume a 0 :=
-    (by fun_prop : Continuous fun y => exp y * cos (u * (y - a))).intervalIntegrable a 0
-  have e : (fun y => (1 - exp y) * cos (u * (y - a))) = fun y => cos (u * (y - a)) - exp y * cos (u * (y - a)) := by
-    funext y; ring
-  rw [e, integral_sub h1 h2, cos_psi_integral u a a 0 hu, cos_chi_integral u a a 0]
-  unfold uPut
-  ring
+          (psiOf false u (sin (u * (0 - a))) (sin (u * (a - a))) a 0) :=
+  uput_integral u a b hu
 
 /-- the digital coefficient is `2/(b-a) ∫_0^b cos(u (y-a)) dy` for k ≠ 0 -/
 theorem cos_vdigital_integral (u a b : ℝ) (hu : u ≠ 0) :
     2 / (b - a) * ∫ y in (0:ℝ)..b, cos (u * (y - a))
-      = vDigital a b (psiOf false u (sin (u * (b - a))) (sin (u * (0 - a))) 0 b) := by
-  rw [cos_psi_integral u a 0 b hu]; rfl
+      = vDigital a b (psiOf false u (sin (u * (b - a))) (sin (u * (0 - a))) 0 b) :=
+  vdigital_integral u a b hu
 
 end integrals
+
+/-! ## (d) the COS formula is exact when there is no truncation error and no series error
+
+`Cos.ExactOn a b N f`: (T) `f = 0` outside `[a,b]`, (S) `f = Σ'_{k<N} A_k cos(kπ(y-a)/(b-a))` on `[a,b]`.
+`Cos.reCoef a b f k = ∫_a^b f(y) cos(u_k (y-a)) dy` is the number `Re(φ(u_k) e^{-i u_k a})` the code takes from the
+characteristic function (under (T)), `Cos.cosSeries a b N f V = halfFirstSum [reCoef k * V k | k < N]` is the model's own
+first-term-halved sum of the code's terms, `Cos.uPutR` / `Cos.vDigR` are the model's `uPut`/`chiOf`/`psiOf`/`vDigital`
+at the real transcendental values. -/
+
+section exact
+open Cos MeasureTheory
+
+/-- orthogonality of the cosine system of the COS method on `[a,b]` -/
+theorem cos_orthogonality (a b : ℝ) (hab : a < b) (k j : ℕ) :
+    ∫ y in a..b, cosK a b k y * cosK a b j y = if k = j then (if k = 0 then b - a else (b - a) / 2) else 0 :=
+  Cos.cos_orthogonality a b hab k j
+
+/-- the density coefficients `F_k = 2/(b-a)·Re(φ(u_k)e^{-i u_k a})` are the coefficients of the expansion (no aliasing) -/
+theorem cos_density_coefficients (a b : ℝ) (hab : a < b) (N : ℕ) (A : ℕ → ℝ) (f : ℝ → ℝ)
+    (hA : ∀ y ∈ Set.Icc a b, f y = cosPoly a b N A y) (k : ℕ) (hk : k < N) : fCoef a b f k = A k :=
+  fCoef_exact a b hab N A f hA k hk
+
+/-- `u_put(k,a,b)` (model's closed form, every k) is the cosine coefficient of the put payoff `(1-e^y)^+` on `[a,b]` -/
+theorem cos_uput_is_coefficient (a b : ℝ) (hab : a < b) (ha : a ≤ 0) (hb : 0 ≤ b) (k : ℕ) :
+    uPutR a b k = 2 / (b - a) * ∫ y in a..b, max (1 - Real.exp y) 0 * cosK a b k y :=
+  uPutR_eq_integral a b hab ha hb k
+
+/-- the digital coefficients (every k) are the cosine coefficients of `1_{y>0}` on `[a,b]` -/
+theorem cos_vdigital_is_coefficient (a b : ℝ) (hab : a < b) (ha : a ≤ 0) (hb : 0 ≤ b) (k : ℕ) :
+    vDigR a b k = 2 / (b - a) * ∫ y in a..b, (if 0 < y then 1 else 0) * cosK a b k y :=
+  vDigR_eq_integral a b hab ha hb k
+
+/-- for ANY `f`: the COS series is the integral over `[a,b]` of the payoff against the N-term cosine partial sum of `f` -/
+theorem cos_series_is_partial_sum (a b : ℝ) (hab : a < b) (N : ℕ) (f v : ℝ → ℝ)
+    (hv : IntervalIntegrable v volume a b) (V : ℕ → ℝ)
+    (hV : ∀ k < N, V k = 2 / (b - a) * ∫ y in a..b, v y * cosK a b k y) :
+    cosSeries a b N f V = ∫ y in a..b, v y * cosPoly a b N (fCoef a b f) y :=
+  cosSeries_eq_partialSum a b hab N f v hv V hV
+
+/-- **the only two error terms**: for any `f` (interval-integrable against the payoff), COS series − `∫ payoff·f` is
+`(S)` the payoff integrated against (N-term cosine partial sum − f) over `[a,b]`, minus `(T)` the payoff integral outside
+`[a,b]`.  (`reCoef` is the transform restricted to `[a,b]`; by `cos_transform_real_part` the code's transform value differs
+from it by `∫_{ℝ∖[a,b]} f cos_k`, again a truncation term that vanishes under (T).)  Bounds on (S) and (T) are NOT proved. -/
+theorem cos_error_decomposition (a b : ℝ) (hab : a < b) (N : ℕ) (f v : ℝ → ℝ)
+    (hv : IntervalIntegrable v volume a b) (hvf : IntervalIntegrable (fun y => v y * f y) volume a b) (V : ℕ → ℝ)
+    (hV : ∀ k < N, V k = 2 / (b - a) * ∫ y in a..b, v y * cosK a b k y) :
+    cosSeries a b N f V - ∫ y, v y * f y
+      = (∫ y in a..b, v y * (cosPoly a b N (fCoef a b f) y - f y))
+        - ((∫ y, v y * f y) - ∫ y in a..b, v y * f y) := by
+  rw [cosSeries_eq_partialSum a b hab N f v hv V hV]
+  have hP : IntervalIntegrable (fun y => v y * cosPoly a b N (fCoef a b f) y) volume a b :=
+    hv.mul_continuousOn (continuous_cosPoly a b N _).continuousOn
+  have e : ∀ y, v y * (cosPoly a b N (fCoef a b f) y - f y) = v y * cosPoly a b N (fCoef a b f) y - v y * f y := fun y => by ring
+  simp_rw [e]
+  rw [intervalIntegral.integral_sub hP hvf]
+  have : (fun k => 2 / (b - a) * reCoef a b f k) = fCoef a b f := rfl
+  rw [this]
+  ring
+
+/-- **COS series = ∫ payoff · density** under (T) and (S), any interval-integrable payoff -/
+theorem cos_series_exact (a b : ℝ) (hab : a < b) (N : ℕ) (f : ℝ → ℝ) (hf : ExactOn a b N f)
+    (v : ℝ → ℝ) (hv : IntervalIntegrable v volume a b) (V : ℕ → ℝ)
+    (hV : ∀ k < N, V k = 2 / (b - a) * ∫ y in a..b, v y * cosK a b k y) :
+    cosSeries a b N f V = ∫ y, v y * f y :=
+  cosSeries_exact a b hab N f hf v hv V hV
+
+/-- **COS put = df·E[(K − S_T)^+]**, `S_T = K e^y`, `y` with density `f`: the model's `cosPut` applied to the series -/
+theorem cos_put_exact (a b : ℝ) (hab : a < b) (ha : a ≤ 0) (hb : 0 ≤ b) (N : ℕ) (f : ℝ → ℝ) (hf : ExactOn a b N f)
+    (df K : ℝ) (hK : 0 ≤ K) :
+    cosPut df K (cosSeries a b N f (uPutR a b)) = df * ∫ y, max (K - K * Real.exp y) 0 * f y := by
+  rw [cosSeries_exact a b hab N f hf putPay (continuous_putPay.intervalIntegrable a b) (uPutR a b)
+    (fun k _ => uPutR_eq_integral a b hab ha hb k)]
+  unfold cosPut cosPricing
+  rw [mul_left_comm, ← integral_const_mul]
+  congr 1
+  refine integral_congr_ae (Filter.Eventually.of_forall fun y => ?_)
+  simp only [putPay]
+  have : K - K * Real.exp y = K * (1 - Real.exp y) := by ring
+  rw [this, ← mul_assoc, mul_max_of_nonneg _ _ hK, mul_zero]
+
+/-- **COS digital = df·P(S_T > K)** -/
+theorem cos_digital_exact (a b : ℝ) (hab : a < b) (ha : a ≤ 0) (hb : 0 ≤ b) (N : ℕ) (f : ℝ → ℝ)
+    (hf : ExactOn a b N f) (df : ℝ) :
+    cosDigital df (cosSeries a b N f (vDigR a b)) = df * ∫ y, (if 0 < y then 1 else 0) * f y := by
+  rw [cosSeries_exact a b hab N f hf digPay (monotone_digPay.intervalIntegrable) (vDigR a b)
+    (fun k _ => vDigR_eq_integral a b hab ha hb k)]
+  rfl
+
+/-- **the number the code takes from the characteristic function**: for an integrable density `f` with
+`φ(u) = ∫ f(y) e^{iuy} dy` (`Cos.cfOf f u`), `Re(φ(u)·e^{-iua}) = ∫ f(y) cos(u (y-a)) dy`
+(cosmethod.py:136-139: `(phi_s * exp_s).real`, the coefficients and weights being real) -/
+theorem cos_transform_real_part (f : ℝ → ℝ) (hf : Integrable f) (u a : ℝ) :
+    (cfOf f u * Complex.exp (-(Complex.I * (u * a)))).re = ∫ y, f y * Real.cos (u * (y - a)) :=
+  cf_re_eq f hf u a
+
+/-- … which under (T) is `reCoef a b f k` at the k-th COS frequency: the series of the exactness theorems is the series the
+code evaluates from the characteristic function -/
+theorem cos_transform_is_reCoef (f : ℝ → ℝ) (hf : Integrable f) (a b : ℝ) (hab : a ≤ b)
+    (hsupp : ∀ y, y ∉ Set.Icc a b → f y = 0) (k : ℕ) :
+    (cfOf f (freq a b k) * Complex.exp (-(Complex.I * (freq a b k * a)))).re = reCoef a b f k :=
+  cf_re_eq_reCoef f hf a b hab hsupp k
+
+/-- non-vacuity of (T) ∧ (S): the uniform density on `[a,b]` is its own one-term cosine expansion -/
+example (a b : ℝ) : ExactOn a b 1 (fun y => if y ∈ Set.Icc a b then 1 / (b - a) else 0) := by
+  classical
+  refine ⟨fun y hy => by simp [hy], ⟨fun _ => 2 / (b - a), fun y hy => ?_⟩⟩
+  simp [hy, cosPoly, wt, cosK, freq]
+  ring
+
+end exact
+
+/-! ## (e) from the series to the spec level: general terminal laws, and transfer of the shape
+
+`Law.TLaw m`: weight `ρ ≥ 0` of mass 1 w.r.t. a reference measure `m`, terminal spot `S ≥ 0` measurable with finite mean.
+`Cos.logLaw g …` is the law of `S_T = e^z` for a log-density `g`; `Cos.shiftDensity g K y = g (y + log K)` is the density
+of the log-moneyness the COS formula expands at the strike `K`.
+
+Remark (why the transfer is stated with an error ε): for two different strikes the code uses the same `[a,b]` for
+`y = log(S_T/K)`, so (T) ∧ (S) cannot hold at both (a trigonometric polynomial vanishing on an interval vanishes).  The
+shape of the COS prices across strikes is therefore obtained as: each price is within ε(K) = |series error| +
+|truncation error| of the spec price (`cos_series_is_partial_sum`), and a function within ε of the spec call has the
+spec shape up to 2ε (`law_shape_transfer`).  A bound on ε(K) for the five families is the part that is NOT proved. -/
+
+section law
+open Cos Law MeasureTheory
+
+variable {Ω : Type} [MeasurableSpace Ω] {m : Measure Ω} (L : TLaw m)
+
+theorem law_call_antitone (df : ℝ) (hdf : 0 ≤ df) {K1 K2 : ℝ} (h : K1 ≤ K2) : L.call df K2 ≤ L.call df K1 :=
+  L.call_antitone df hdf h
+
+theorem law_call_convex (df : ℝ) (hdf : 0 ≤ df) (K1 K2 t : ℝ) (h0 : 0 ≤ t) (h1 : t ≤ 1) :
+    L.call df (t * K1 + (1 - t) * K2) ≤ t * L.call df K1 + (1 - t) * L.call df K2 :=
+  L.call_convex df hdf K1 K2 t h0 h1
+
+theorem law_parity (df K : ℝ) : L.call df K - L.put df K = df * (L.fwd - K) := L.parity df K
+
+theorem law_call_band (df : ℝ) (hdf : 0 ≤ df) (K : ℝ) (hK : 0 ≤ K) :
+    df * max (L.fwd - K) 0 ≤ L.call df K ∧ L.call df K ≤ df * L.fwd := L.call_band df hdf K hK
+
+theorem law_put_band (df : ℝ) (hdf : 0 ≤ df) (K : ℝ) (hK : 0 ≤ K) :
+    df * max (K - L.fwd) 0 ≤ L.put df K ∧ L.put df K ≤ df * K := L.put_band df hdf K hK
+
+theorem law_call_spread (df : ℝ) (hdf : 0 ≤ df) {K1 K2 : ℝ} (h : K1 ≤ K2) :
+    0 ≤ L.call df K1 - L.call df K2 ∧ L.call df K1 - L.call df K2 ≤ df * (K2 - K1) := L.call_spread df hdf h
+
+theorem law_digital_antitone (df : ℝ) (hdf : 0 ≤ df) {K1 K2 : ℝ} (h : K1 ≤ K2) : L.digital df K2 ≤ L.digital df K1 :=
+  L.digital_antitone df hdf h
+
+theorem law_digital_range (df : ℝ) (hdf : 0 ≤ df) (K : ℝ) : 0 ≤ L.digital df K ∧ L.digital df K ≤ df :=
+  L.digital_range df hdf K
+
+/-- any price function within `ε` of the spec call on a set of strikes has bounds, monotonicity, slope and convexity up to
+`ε` / `2ε` there — the form in which the harness checks the shape of the numerical prices -/
+theorem law_shape_transfer (df : ℝ) (hdf : 0 ≤ df) (c : ℝ → ℝ) (ε : ℝ) (Ks : Set ℝ)
+    (h : ∀ K ∈ Ks, |c K - L.call df K| ≤ ε) :
+    (∀ K ∈ Ks, 0 ≤ K → df * max (L.fwd - K) 0 - ε ≤ c K ∧ c K ≤ df * L.fwd + ε) ∧
+    (∀ K1 ∈ Ks, ∀ K2 ∈ Ks, K1 ≤ K2 → c K2 ≤ c K1 + 2 * ε ∧ c K1 - c K2 ≤ df * (K2 - K1) + 2 * ε) ∧
+    (∀ K1 ∈ Ks, ∀ K2 ∈ Ks, ∀ t, 0 ≤ t → t ≤ 1 → t * K1 + (1 - t) * K2 ∈ Ks →
+      c (t * K1 + (1 - t) * K2) ≤ t * c K1 + (1 - t) * c K2 + 2 * ε) :=
+  L.shape_transfer df hdf c ε Ks h
+
+variable (g : ℝ → ℝ) (hg0 : ∀ z, 0 ≤ g z) (hgi : Integrable g) (hm : ∫ z, g z = 1)
+  (hS : Integrable (fun z => Real.exp z * g z))
+
+/-- **COS put = spec put** of the law of `S_T = e^z` under (T) ∧ (S) at the strike `K` -/
+theorem cos_put_eq_spec_put (a b : ℝ) (hab : a < b) (ha : a ≤ 0) (hb : 0 ≤ b) (N : ℕ) (K : ℝ) (hK : 0 < K)
+    (hex : ExactOn a b N (shiftDensity g K)) (df : ℝ) :
+    cosPut df K (cosSeries a b N (shiftDensity g K) (uPutR a b)) = (logLaw g hg0 hgi hm hS).put df K :=
+  cosPut_eq_spec g hg0 hgi hm hS a b hab ha hb N K hK hex df
+
+/-- **COS call = spec call** when moreover the pricer's forward is the mean of the law -/
+theorem cos_call_eq_spec_call (a b : ℝ) (hab : a < b) (ha : a ≤ 0) (hb : 0 ≤ b) (N : ℕ) (K : ℝ) (hK : 0 < K)
+    (hex : ExactOn a b N (shiftDensity g K)) (df fwd : ℝ) (hfwd : fwd = (logLaw g hg0 hgi hm hS).fwd) :
+    cosCall df fwd K (cosSeries a b N (shiftDensity g K) (uPutR a b)) = (logLaw g hg0 hgi hm hS).call df K :=
+  cosCall_eq_spec g hg0 hgi hm hS a b hab ha hb N K hK hex df fwd hfwd
+
+/-- **COS digital = spec digital** -/
+theorem cos_digital_eq_spec_digital (a b : ℝ) (hab : a < b) (ha : a ≤ 0) (hb : 0 ≤ b) (N : ℕ) (K : ℝ) (hK : 0 < K)
+    (hex : ExactOn a b N (shiftDensity g K)) (df : ℝ) :
+    cosDigital df (cosSeries a b N (shiftDensity g K) (vDigR a b)) = (logLaw g hg0 hgi hm hS).digital df K :=
+  cosDigital_eq_spec g hg0 hgi hm hS a b hab ha hb N K hK hex df
+
+/-- hence at such a strike the COS call lies in the no-arbitrage band -/
+theorem cos_call_band_exact (a b : ℝ) (hab : a < b) (ha : a ≤ 0) (hb : 0 ≤ b) (N : ℕ) (K : ℝ) (hK : 0 < K)
+    (hex : ExactOn a b N (shiftDensity g K)) (df fwd : ℝ) (hdf : 0 ≤ df) (hfwd : fwd = (logLaw g hg0 hgi hm hS).fwd) :
+    df * max (fwd - K) 0 ≤ cosCall df fwd K (cosSeries a b N (shiftDensity g K) (uPutR a b)) ∧
+    cosCall df fwd K (cosSeries a b N (shiftDensity g K) (uPutR a b)) ≤ df * fwd := by
+  rw [cos_call_eq_spec_call g hg0 hgi hm hS a b hab ha hb N K hK hex df fwd hfwd, hfwd]
+  exact (logLaw g hg0 hgi hm hS).call_band df hdf K hK.le
+
+/-- non-vacuity of the whole hypothesis set of `cos_put_eq_spec_put` / `cos_call_eq_spec_call`: the uniform log-density on
+`[-1,1]` at the strike `K = 1` -/
+example : ∃ g : ℝ → ℝ, (∀ z, 0 ≤ g z) ∧ Integrable g ∧ ∫ z, g z = 1 ∧ Integrable (fun z => Real.exp z * g z) ∧
+    ExactOn (-1) 1 1 (shiftDensity g 1) := by
+  have hfin : volume (Set.Icc (-1:ℝ) 1) ≠ ⊤ := by simp [Real.volume_Icc]
+  refine ⟨Set.indicator (Set.Icc (-1) 1) (fun _ => 1/2), ?_, ?_, ?_, ?_, ?_⟩
+  · intro z; exact Set.indicator_nonneg (fun _ _ => by norm_num) z
+  · exact (integrable_indicator_iff measurableSet_Icc).mpr (integrableOn_const hfin)
+  · rw [integral_indicator measurableSet_Icc, setIntegral_const]
+    simp [Real.volume_real_Icc]; norm_num
+  · have h : IntegrableOn (fun z => Real.exp z * (1/2)) (Set.Icc (-1:ℝ) 1) :=
+      (by fun_prop : Continuous fun z : ℝ => Real.exp z * (1/2)).continuousOn.integrableOn_Icc
+    refine ((integrable_indicator_iff measurableSet_Icc).mpr h).congr (Filter.Eventually.of_forall fun z => ?_)
+    by_cases hz : z ∈ Set.Icc (-1:ℝ) 1 <;> simp [Set.indicator, hz]
+  · refine ⟨fun y hy => ?_, ⟨fun _ => 1, fun y hy => ?_⟩⟩
+    · simp [shiftDensity, Set.indicator, hy]
+    · simp [shiftDensity, Set.indicator, hy, cosPoly, wt, cosK, freq]
+
+end law
+
+/-! ## (f) Black–Scholes closed form as a function of the strike (model's `bsRegular`, `bsDigitalRegular` over ℝ)
+
+`BS.NormalLike Φ φ c`: `Φ' = φ`, `φ x = c·exp(-x²/2)`, `c > 0`.  `BS.callK Φ df F sd K = bsRegular Φ 1 df F K (log(F/K)) sd`,
+`BS.digitalK Φ df F' sd K = bsDigitalRegular Φ df (log(F'/K)) sd`. -/
+
+section bs
+open BS
+
+variable {Φ φ : ℝ → ℝ} {c : ℝ}
+
+/-- the digital's own `d2` (cfblackscholes.py:120) is `_call_put`'s `d2 = d1 - sd` (any field) -/
+theorem bs_digital_arg_is_d2 (lg sd : ℝ) : bsDigitalArg lg sd = bsD2 lg sd := digitalArg_eq_d2 lg sd
+
+/-- **digital = −∂call/∂K** -/
+theorem bs_digital_is_minus_dcall_dK (h : NormalLike Φ φ c) (df F sd K : ℝ) (hF : 0 < F) (hK : 0 < K) (hsd : 0 < sd) :
+    HasDerivAt (callK Φ df F sd) (-(digitalK Φ df F sd K)) K := hasDerivAt_callK h df F sd K hF hK hsd
+
+theorem bs_call_antitone (h : NormalLike Φ φ c) (h0 : ∀ x, 0 ≤ Φ x) (df F sd : ℝ) (hdf : 0 ≤ df) (hF : 0 < F)
+    (hsd : 0 < sd) : AntitoneOn (callK Φ df F sd) (Set.Ioi 0) := callK_antitoneOn h h0 df F sd hdf hF hsd
+
+theorem bs_call_convex (h : NormalLike Φ φ c) (df F sd : ℝ) (hdf : 0 ≤ df) (hF : 0 < F) (hsd : 0 < sd) :
+    ConvexOn ℝ (Set.Ioi 0) (callK Φ df F sd) := callK_convexOn h df F sd hdf hF hsd
+
+theorem bs_call_slope (h : NormalLike Φ φ c) (h0 : ∀ x, 0 ≤ Φ x) (h1 : ∀ x, Φ x ≤ 1) (df F sd K : ℝ) (hdf : 0 ≤ df)
+    (hF : 0 < F) (hK : 0 < K) (hsd : 0 < sd) :
+    -df ≤ deriv (callK Φ df F sd) K ∧ deriv (callK Φ df F sd) K ≤ 0 := callK_slope h h0 h1 df F sd K hdf hF hK hsd
+
+theorem bs_digital_antitone (h : NormalLike Φ φ c) (df F sd : ℝ) (hdf : 0 ≤ df) (hF : 0 < F) (hsd : 0 < sd) :
+    AntitoneOn (digitalK Φ df F sd) (Set.Ioi 0) := digitalK_antitoneOn h df F sd hdf hF hsd
+
+/-- the forward inside the digital is determined by the call: any other forward contradicts digital = −∂call/∂K -/
+theorem bs_digital_forward_unique (h : NormalLike Φ φ c) (df F F' sd K : ℝ) (hdf : 0 < df) (hF : 0 < F) (hF' : 0 < F')
+    (hK : 0 < K) (hsd : 0 < sd) (hD : HasDerivAt (callK Φ df F sd) (-(digitalK Φ df F' sd K)) K) : F' = F :=
+  digital_forward_unique h df F F' sd K hdf hF hF' hK hsd hD
+
+/-- a dividend yield dropped from the digital's `d2` (seeded change C18-c) is a contradiction -/
+theorem bs_dropped_dividend_contradiction (h : NormalLike Φ φ c) (df spot r q T sd K : ℝ) (hdf : 0 < df)
+    (hspot : 0 < spot) (hq : q ≠ 0) (hT : 0 < T) (hK : 0 < K) (hsd : 0 < sd) :
+    ¬ HasDerivAt (callK Φ df (spot * Real.exp ((r - q) * T)) sd) (-(digitalK Φ df (spot * Real.exp (r * T)) sd K)) K :=
+  dropped_dividend_contradiction h df spot r q T sd K hdf hspot hq hT hK hsd
+
+/-- non-vacuity of `NormalLike`: `Φ(x) = 1/2 + ∫_0^x e^{-t²/2} dt` -/
+example : ∃ Φ φ : ℝ → ℝ, NormalLike Φ φ 1 := by
+  have hc : Continuous fun t : ℝ => Real.exp (-(t ^ 2) / 2) := by fun_prop
+  refine ⟨fun x => 1 / 2 + ∫ t in (0:ℝ)..x, Real.exp (-(t ^ 2) / 2), fun x => Real.exp (-(x ^ 2) / 2), ⟨fun x => ?_, fun x => by ring, one_pos⟩⟩
+  have := intervalIntegral.integral_hasDerivAt_right (hc.intervalIntegrable 0 x) (hc.stronglyMeasurableAtFilter _ _)
+    hc.continuousAt
+  simpa using this.const_add (1 / 2)
+
+end bs
 
 end Rpylib.Pricers
